@@ -79,3 +79,25 @@ func VerifH_C07_cacheKeyInjective() {
 		verifrt.And(q1.Class == q2.Class, q1.Type == q2.Type))
 	verifrt.Assert(verifrt.Implies(verifrt.EqBytes(k1, k2), same), "equal keys imply equal (name, class, type, group)")
 }
+
+// VerifH_C07_FoldingOnlyLetters: the request path folds the question name before it builds the cache key. Two
+// questions whose names differ in one octet share a key exactly when those octets are the same ASCII letter in
+// different case — no other pair of octets (e.g. '[' and '{', '@' and '`') is ever folded together.
+func VerifH_C07_FoldingOnlyLetters() {
+	verifrt.Unwind(40)
+	c1, c2 := verifrt.Byte("c1"), verifrt.Byte("c2")
+	mk := func(c byte) *dnsmsg.Question {
+		q := dnsmsg.NewQuestion()
+		n := pool.GetBuf(4)
+		n[0], n[1], n[2], n[3] = 3, 'x', c, 'y'
+		q.Name, q.Type, q.Class = dnsmsg.Name(n), 1, 1
+		return q
+	}
+	q1, q2 := mk(c1), mk(c2)
+	verifrt.Assert(dnsmsg.ToLowerName(q1.Name) == nil && dnsmsg.ToLowerName(q2.Name) == nil, "valid names fold")
+	k1, k2 := cacheKey(q1, ""), cacheKey(q2, "")
+	verifrt.Reach("keys")
+	lower := func(c byte) byte { return byte(verifrt.Ite('A' <= c && c <= 'Z', int(c)+32, int(c))) }
+	verifrt.Assert(verifrt.EqBytes(k1, k2) == (lower(c1) == lower(c2)), "same cache entry iff the names are equal ASCII-case-insensitively")
+	verifrt.Assert(q1.Name[2] == lower(c1), "folding changes upper-case ASCII letters only")
+}
